@@ -23,6 +23,7 @@ from ..common import show, strict
 from ..vlab import FALSY, HASHABLE_FALSY, Lab, SrcErr, show_timeline
 
 SUB_AT = 200.0
+HORIZON = 5000.0     # virtual-time horizon of a run (every generated timeline ends long before)
 STEPS = (0, 5, 5, 10, 10, 15, 1, 4, 6)
 D = (5, 10, 15)
 TRUTHY = [1, 2, "a", (1,), [0], True, 3.5, -1]
@@ -67,6 +68,9 @@ class EqTok(Tok):
     def __ge__(self, other: Any) -> bool:
         return self.orig >= other.orig
 
+    def __sub__(self, other: Any) -> Any:       # default comparers of min / max subtract
+        return self.orig - other.orig
+
 
 class Relab:
     def __init__(self, eq: bool) -> None:
@@ -90,7 +94,7 @@ def tokens_in(v: Any, depth: int = 0) -> list:
     """all tokens reachable inside a recorded value"""
     if isinstance(v, Tok):
         return [v]
-    if depth > 6:
+    if depth > 40:
         return []
     if isinstance(v, (list, tuple, set, frozenset)):
         return [t for x in v for t in tokens_in(x, depth + 1)]
@@ -109,8 +113,8 @@ def canon(v: Any, depth: int = 0) -> Any:
     """type-strict canonical form with tokens mapped back to the values they stand for"""
     if isinstance(v, Tok):
         return strict(v.orig)
-    if depth > 8:
-        return "..."
+    if depth > 40:          # (scan with a pairing accumulator nests one level per element; never reached)
+        raise RecursionError("canon: value nested deeper than 40 levels")
     if isinstance(v, (list, tuple)):
         return (type(v).__name__, tuple(canon(x, depth + 1) for x in v))
     if isinstance(v, dict):
@@ -259,20 +263,21 @@ class Ctx:
 
 class Scn:
     def __init__(self, name: str, srcs: tuple, gen: Any, build: Any, setup: Any, eq: bool, hashable: bool,
-                 derived: bool, maxlen: int, minlen: int, cold: bool) -> None:
+                 derived: bool, maxlen: int, minlen: int, cold: bool, term: Any) -> None:
         self.name, self.srcs, self.gen, self.build, self.setup = name, srcs, gen, build, setup
         self.eq, self.hashable, self.derived, self.maxlen, self.minlen = eq, hashable, derived, maxlen, minlen
-        self.cold = cold
+        self.cold, self.term = cold, term
 
 
 SCEN: dict[str, Scn] = {}
 
 
 def scen(name: str, srcs: tuple = ("s",), gen: Any = None, eq: bool = False, hashable: bool = False,
-         derived: bool = False, custom: bool = False, maxlen: int = 6, minlen: int = 0, cold: bool = False) -> Any:
+         derived: bool = False, custom: bool = False, maxlen: int = 6, minlen: int = 0, cold: bool = False,
+         term: Any = "auto") -> Any:
     def deco(fn: Any) -> Any:
         SCEN[name] = Scn(name, srcs, gen, None if custom else fn, fn if custom else None, eq, hashable, derived,
-                         maxlen, minlen, cold)
+                         maxlen, minlen, cold, term)
         return fn
     return deco
 
@@ -285,7 +290,8 @@ def gen_case(r: Any, name: str) -> dict:
             case["srcs"].append(gen_marks(r, sname))
         else:
             case["srcs"].append(gen_src(r, sname, maxlen=S.maxlen, minlen=S.minlen, hashable=S.hashable,
-                                        hot=False if S.cold else None))
+                                        hot=False if S.cold else None,
+                                        term=r.choice(S.term) if isinstance(S.term, list) else S.term))
     if S.gen is not None:
         case["P"] = S.gen(r, case)
     return case
@@ -308,7 +314,7 @@ def run_variant(case: dict, relabel: bool) -> dict:
     else:
         top = lab.observer("top")
         lab.at(SUB_AT, lambda: top.subscribe_to(S.build(c)))
-    lab.run()
+    lab.run(until=HORIZON)
     raw = {o.name: o.timed() for o in lab.observers}
     out = {name: [(t, k, canon(v)) for (t, k, v) in xs] for name, xs in raw.items()}
     offered = [e[6] for e in lab.ev if e[2] == "emit" and e[5] == "N"]
@@ -389,7 +395,7 @@ def _delay(c: Ctx) -> Any:
 
 @scen("delay_with_mapper", gen=lambda r, c: {"ds": [r.choice(D + (0, 20)) for _ in range(3)]})
 def _delay_with_mapper(c: Ctx) -> Any:
-    return c.s().pipe(ops.delay_with_mapper(delay_duration_mapper=c.cycle("ds")))
+    return c.s().pipe(ops.delay_with_mapper(c.cycle("ds")))
 
 
 @scen("delay_with_mapper_subscription_delay", gen=lambda r, c: {"ds": [r.choice(D) for _ in range(3)], "sd": r.choice(D)})
@@ -505,7 +511,7 @@ def _throttle_first(c: Ctx) -> Any:
 
 @scen("sample", gen=lambda r, c: {"d": r.choice([4, 5, 7, 10, 20])})
 def _sample(c: Ctx) -> Any:
-    return c.s().pipe(ops.sample(c.P["d"], scheduler=c.ts), ops.take(15))
+    return c.s().pipe(ops.sample(c.P["d"], scheduler=c.ts), ops.take_until_with_time(300, scheduler=c.ts))
 
 
 @scen("sample_observable", srcs=("s", "b"))
@@ -603,7 +609,7 @@ def _zip_with_iterable(c: Ctx) -> Any:
     return c.s().pipe(ops.zip_with_iterable(c.mlist("items")))
 
 
-@scen("combine_latest", srcs=_nsrc(3), maxlen=3)
+@scen("combine_latest", srcs=_nsrc(3), maxlen=3, minlen=1)
 def _combine_latest(c: Ctx) -> Any:
     return rx.combine_latest(*_all(c))
 
@@ -614,7 +620,7 @@ def _combine_latest_op(c: Ctx) -> Any:
     return xs[0].pipe(ops.combine_latest(xs[1]))
 
 
-@scen("with_latest_from", srcs=_nsrc(3), maxlen=4)
+@scen("with_latest_from", srcs=_nsrc(3), maxlen=4, minlen=1)
 def _with_latest_from(c: Ctx) -> Any:
     xs = _all(c)
     return xs[0].pipe(ops.with_latest_from(*xs[1:]))
@@ -626,12 +632,12 @@ def _with_latest_from2(c: Ctx) -> Any:
     return rx.with_latest_from(xs[0], xs[1])
 
 
-@scen("fork_join", srcs=_nsrc(3), maxlen=3)
+@scen("fork_join", srcs=_nsrc(3), maxlen=3, minlen=1, term=["C"] * 9 + ["E", None])
 def _fork_join(c: Ctx) -> Any:
     return rx.fork_join(*_all(c))
 
 
-@scen("fork_join_op", srcs=_nsrc(2), maxlen=3)
+@scen("fork_join_op", srcs=_nsrc(2), maxlen=3, minlen=1, term=["C"] * 9 + ["E", None])
 def _fork_join_op(c: Ctx) -> Any:
     xs = _all(c)
     return xs[0].pipe(ops.fork_join(xs[1]))
@@ -916,11 +922,15 @@ def _from_callback(c: Ctx) -> Any:
 @scen("generate", srcs=(), gen=_gen_items)
 def _generate(c: Ctx) -> Any:
     items = c.mlist("items")
-    nxt = {id(a): b for a, b in zip(items, items[1:] + [StopIteration])}
-    return rx.generate(items[0], lambda x: x is not StopIteration, lambda x: nxt[id(x)])
+    pos = [0]
+
+    def iterate(_: Any) -> Any:        # value-independent: walks the item list
+        pos[0] += 1
+        return items[pos[0]] if pos[0] < len(items) else None
+    return rx.generate(items[0], lambda _: pos[0] < len(items), iterate)
 
 
-@scen("defer_if_then_case", srcs=(), gen=_gen_items, eq=True, hashable=True)
+@scen("case", srcs=(), gen=lambda r, c: {"items": [gen_val(r, True, 0.85) for _ in range(r.randint(1, 5))]}, eq=True, hashable=True)
 def _case(c: Ctx) -> Any:
     items = c.mlist("items")
     table = {}
